@@ -1,19 +1,19 @@
 SPECIFICATION Spec
 CONSTANTS
-  DeepKinds <- MC_Deep
-  ShallowKinds <- MC_Shallow
+  DeepKinds <- MC_LargeDeep
+  ShallowKinds <- MC_LargeShallow
   StaticKinds <- MC_Static
-  Depth = 4
-  ShallowDepth = 3
-  Media = {"mem"}
-  Sizes = {"small"}
+  Depth = 2
+  ShallowDepth = 2
+  Media = {"reader", "file", "over"}
+  Sizes = {"large"}
   BigSaves = 1
-  Variant = "drop_hist"
+  Variant = "faithful"
 INVARIANT TypeOK
 INVARIANT Stutter
 INVARIANT Idempotent
 INVARIANT SaveLoadOk
 INVARIANT MediumIndependent
-
+INVARIANT Emit
 PROPERTY StutterStep
 CHECK_DEADLOCK FALSE
